@@ -71,6 +71,43 @@ CHECKER = "repo:common.checkformat_delegating_metadata"
 VSIG = "repo:authentication.verify_signable"
 
 
+def checked_ok(st, callee, x):
+    """the path holds ok(callee(x)) - also when the callee has meanwhile got optional parameters,
+    which the call term then carries at their (constant) defaults"""
+    from sa.terms import CallT, is_call, is_const
+
+    if st.holds(("ok", CallT(callee, [x]))):
+        return True
+    import ast as _ast
+
+    from .hexlang import current
+
+    w = current()
+    fi = w.eng.prog.funcs.get(callee[5:]) if w is not None else None
+    if fi is None:
+        return False
+    a = fi.node.args
+    pos = a.posonlyargs + a.args
+    dflt = {}
+    for arg, d in zip(pos[len(pos) - len(a.defaults):], a.defaults):
+        dflt[arg.arg] = d
+    for arg, d in zip(a.kwonlyargs, a.kw_defaults):
+        if d is not None:
+            dflt[arg.arg] = d
+    names = [x_.arg for x_ in pos] + [x_.arg for x_ in a.kwonlyargs]
+
+    def is_default(name, term):
+        d = dflt.get(name)
+        return isinstance(d, _ast.Constant) and is_const(term) and term[2] == d.value and type(term[2]) is type(d.value)
+
+    for f in st.closure():
+        if f[0] == "ok" and is_call(f[1], callee) and f[1][2] and f[1][2][0] == x:
+            extra_pos = f[1][2][1:]
+            if all(i + 1 < len(names) and is_default(names[i + 1], t) for i, t in enumerate(extra_pos)) and all(is_default(n, v) for n, v in f[1][3]):
+                return True
+    return False
+
+
 def checker_family(eng):
     """the delegating-metadata checker and the functions that decide the *contents* part of its
     schema for it: a function of the same module to which the checker hands envelope['signed'],
@@ -296,3 +333,52 @@ def refuted_at_defaults(eng, qualname, modelled, facts):
                 if (g[0] == "in") != inside:
                     return True
     return False
+
+
+# callables that change process-wide interpreter / library configuration: what they set is read,
+# implicitly, by code that looks like a function of its arguments (int <-> str conversion inside
+# json.dumps, the decimal context, the locale, the warnings filter, the recursion limit, ...)
+GLOBAL_SETTERS = (
+    "sys.set_int_max_str_digits", "sys.setrecursionlimit", "sys.setswitchinterval", "sys.setprofile", "sys.settrace", "sys.setdlopenflags",
+    "locale.setlocale", "os.putenv", "os.unsetenv", "os.chdir", "os.umask", "os.environ.update", "os.environ.setdefault", "os.environ.pop", "os.environ.clear",
+    "warnings.simplefilter", "warnings.filterwarnings", "warnings.resetwarnings", "logging.basicConfig", "logging.disable",
+    "decimal.setcontext", "random.seed", "socket.setdefaulttimeout", "gc.disable", "gc.set_threshold", "faulthandler.enable", "codecs.register", "codecs.register_error",
+    "copyreg.pickle", "atexit.register", "signal.signal", "time.tzset",
+)
+
+
+def interpreter_reconfigurations(eng):
+    """(site text, file:line, what) for every place in the package - module level or inside a
+    function - that calls one of GLOBAL_SETTERS or assigns to / deletes an attribute or item of an
+    imported external module (json.encoder.FLOAT_REPR = ..., os.environ["X"] = ..., sys.stdout = ...)"""
+    import ast
+
+    from sa.model import dotted_chain
+
+    out = []
+    for short, mod in sorted(eng.prog.modules.items()):
+        for node in ast.walk(mod.tree):
+            if isinstance(node, ast.Call):
+                chain = dotted_chain(node.func)
+                if chain and chain[0] in mod.imports:
+                    r, rest = eng.prog.resolve_dotted(mod, chain)
+                    if r[0] == "ext":
+                        full = ".".join([r[1]] + list(rest))
+                        if full in GLOBAL_SETTERS:
+                            out.append((ast.unparse(node)[:80], "%s:%d" % (mod.relpath, node.lineno), "calls " + full))
+            targets = []
+            if isinstance(node, (ast.Assign, ast.Delete)):
+                targets = list(node.targets)
+            elif isinstance(node, (ast.AugAssign, ast.AnnAssign)) and getattr(node, "value", None) is not None:
+                targets = [node.target]
+            for t in targets:
+                base = t
+                while isinstance(base, (ast.Attribute, ast.Subscript)):
+                    base = base.value
+                if base is t or not isinstance(base, ast.Name) or base.id not in mod.imports:
+                    continue
+                chain = dotted_chain(t.value if isinstance(t, ast.Subscript) else t)
+                r = eng.prog.resolve_dotted(mod, chain)[0] if chain else ("?",)
+                if r[0] == "ext":
+                    out.append((ast.unparse(node)[:80], "%s:%d" % (mod.relpath, node.lineno), "rebinds/changes " + ast.unparse(t)[:60]))
+    return out
